@@ -329,7 +329,15 @@ func (r *run) judge(o judgeOpts) []finding {
 				}
 			default:
 				if len(succ) == 0 {
-					add("answer-without-execution", fmt.Sprintf("request %d answered %d without running the handler, and no execution for its key completed", rq.Idx, rq.Resp.Status))
+					if ex := r.foreign(rq); ex != nil {
+						add("other-key-affected|answered-from-record-of-another-key|"+keyRelation(rq.Key, ex.Key),
+							fmt.Sprintf("request %d with key %q did not run the handler and was answered %d with the response of execution %d, which belongs to the DIFFERENT key %q", rq.Idx, rq.Key, rq.Resp.Status, ex.N, ex.Key))
+					} else {
+						add("answer-without-execution", fmt.Sprintf("request %d answered %d without running the handler, and no execution for its key completed", rq.Idx, rq.Resp.Status))
+					}
+				} else if ex := r.foreign(rq); ex != nil && strconv.Itoa(succ[0].N) != rq.Resp.Get("X-Exec") {
+					add("other-key-affected|answered-from-record-of-another-key|"+keyRelation(rq.Key, ex.Key),
+						fmt.Sprintf("request %d with key %q was answered %d with the response of execution %d, which belongs to the DIFFERENT key %q", rq.Idx, rq.Key, rq.Resp.Status, ex.N, ex.Key))
 				} else if len(succ) == 1 {
 					r.compareAnswer(rq, succ[0], add)
 				} else {
@@ -343,7 +351,15 @@ func (r *run) judge(o judgeOpts) []finding {
 				}
 			}
 		}
-		if o.linz && len(succ) <= 1 {
+		// answers taken from another key's record are reported as such, not once more as a
+		// broken register
+		foreignHit := false
+		for _, rq := range byKey[key] {
+			if rq.Resp != nil && !rq.Errored && len(rq.Entries) == 0 && r.foreign(rq) != nil {
+				foreignHit = true
+			}
+		}
+		if o.linz && len(succ) <= 1 && !foreignHit {
 			r.linearizable(key, byKey[key], add)
 		}
 	}
@@ -364,6 +380,20 @@ func (r *run) judge(o judgeOpts) []finding {
 		}
 	}
 	return fs
+}
+
+// foreign: the successful execution of ANOTHER key that the answer of rq identifies (X-Exec).
+func (r *run) foreign(rq *reqRec) *execRec {
+	id := rq.Resp.Get("X-Exec")
+	if id == "" {
+		return nil
+	}
+	for _, ex := range r.execs {
+		if ex.Key != "" && ex.Key != rq.Key && ex.Exited && !ex.Fail && strconv.Itoa(ex.N) == id {
+			return ex
+		}
+	}
+	return nil
 }
 
 func firstLine(s string) string {
